@@ -624,7 +624,7 @@ func init() {
 		}
 		return cases
 	}
-	mc.ShardedRegistry["c01"] = &mc.Sharded{Name: "c01",
+	mc.ShardedRegistry["c01"] = &mc.Sharded{Name: "c01", WorkerCases: 100, // every case executes dozens of blocks with WASM deployments
 		N:        func() int { return len(get()) },
 		Describe: func(i int) string { return strings.Join(get()[i], ",") },
 		Run: func(c *mc.Ctx, i int) {
